@@ -656,8 +656,8 @@ Definition cache_contains_lock_free : bool := true.
         shard_range(h['__Hshards__'], fname), fmt_binds(binds)))
 
     rnode = find_func(tree, 'FanoutCache._remove', fname)
-    h = matches(T_REMOVE, rnode, fname)
-    if h is not None:
+    try:
+        h = match_template(T_REMOVE, rnode, fname)
         p = ast.unparse(h['__Hpartial__']).replace(' ', '')
         if p == 'timeout.args[0]':
             partial = 'PartialArg0'
@@ -665,8 +665,11 @@ Definition cache_contains_lock_free : bool := true.
             partial = 'PartialNothing'
         else:
             err(h['__Hpartial__'], '_remove: unsupported partial count: ' + p, fname)
-    else:
-        h = match_template(T_REMOVE_NOPARTIAL, rnode, fname)
+    except TranslateError as first:
+        h = matches(T_REMOVE_NOPARTIAL, rnode, fname)
+        if h is None:
+            raise TranslateError('%s (_remove no longer matches `for shard: while True: try: total += method(...) except Timeout as '
+                                 'timeout: total += timeout.args[0] else: break`)' % first)
         partial = 'PartialNothing'
     out.append('Definition remove_loop : remove_loop_t :=\n  {| rm_shards := %s; rm_resumes := true; rm_partial := %s; rm_passes_retry := true |}.\n' % (
         shard_range(h['__Hshards__'], fname), partial))
